@@ -56,13 +56,33 @@ class RuntimeCheck:
         return []
     def known_findings(self):
         return []
+    def judge(self, name, text, real_lines):
+        """property oracle evaluated on the real trace alone (independent of the model);
+        returns None if fine, else a one-line description"""
+        return None
+    def judge_pairs(self, order, texts, real):
+        """relational oracle over several real traces; returns list of (name, description)"""
+        return []
 
     # -------------------------------------------------------------------------------------
     def compare_text(self, text):
         """-> (order, mismatches: list of (name, kind, detail)) where kind in {'spec','tie'}"""
         order, real, model = run.traces(text)
         mism = []
+        texts = scn.split_text(text)
+        judged = set()
         for n in order:
+            j = self.judge(n, texts.get(n, ''), real[n])
+            if j:
+                mism.append((n, 'spec', (j, 'property oracle on the real trace')))
+                judged.add(n)
+        for (n, desc) in self.judge_pairs(order, texts, real):
+            if n not in judged:
+                mism.append((n, 'spec', (desc, 'relational property oracle on real traces')))
+                judged.add(n)
+        for n in order:
+            if n in judged:
+                continue
             r, m = real[n], model[n]
             if self.tie_proj(r) != self.tie_proj(m):
                 kind = 'spec' if self.spec_proj(r) != self.spec_proj(m) else 'tie'
